@@ -24,7 +24,9 @@ import (
 	"bufio"
 	"fmt"
 	"os"
+	"os/signal"
 	"path/filepath"
+	"runtime"
 	"runtime/debug"
 	"sort"
 	"strconv"
@@ -80,6 +82,7 @@ func body(r *vf.Run) {
 type span struct {
 	from, to int
 	race     bool
+	stage    string // suspects: the stage that was running when the soft timer fired
 }
 
 type crashed struct {
@@ -102,14 +105,14 @@ func top(r *vf.Run) {
 		if t > n {
 			t = n
 		}
-		spans = append(spans, span{f, t, false})
+		spans = append(spans, span{from: f, to: t})
 	}
 	for f := from0; f < n; f += 2000 {
 		t := f + 2000
 		if t > n {
 			t = n
 		}
-		spans = append(spans, span{f, t, true})
+		spans = append(spans, span{from: f, to: t, race: true})
 	}
 	// race spans are the long poles: start them first
 	sort.SliceStable(spans, func(i, j int) bool { return spans[i].race && !spans[j].race })
@@ -170,8 +173,20 @@ func top(r *vf.Run) {
 	sort.Slice(suspects, func(i, j int) bool { return suspects[i].from < suspects[j].from })
 	r.Count("suspects", len(suspects))
 	hangBudget := time.Duration(envInt("C04_HANG_S", 120)) * time.Second
+	// Every hang costs its whole budget, so the number of re-runs is bounded: at most 3
+	// per suspect stage and maxRerun in total; the others stay undecided (inconclusive).
+	maxRerun := envInt("C04_MAX_RERUN", r.N(15, 40))
+	perStage := map[string]int{}
 	susWork := make(chan span, len(suspects))
+	queued := 0
 	for _, s := range suspects {
+		r.Distinct("suspect_stages", s.stage)
+		if perStage[s.stage] >= 3 || queued >= maxRerun {
+			r.Inconclusive("suspect not re-run alone (re-run budget; same stage as an already re-run suspect): stage " + s.stage)
+			continue
+		}
+		perStage[s.stage]++
+		queued++
 		susWork <- s
 	}
 	close(susWork)
@@ -225,7 +240,7 @@ func top(r *vf.Run) {
 	r.Set("cases_planned", n-from0)
 	r.Set("parallel_children", par)
 	r.Assume("the Go runtime reports every fatal condition of a child on its stderr (panic / fatal error / signal) before the process ends; a death without such a report is counted inconclusive")
-	r.Assume("a case that finishes within the soft timer (20 s plain, 90 s race) or within 120 s alone is not a hang; 'blocks forever' is decided as 'does not finish in 4-5 orders of magnitude above the normal cost'")
+	r.Assume("a case that finishes within the soft timer (12 s plain, 60 s race) or within 120 s alone is not a hang; 'blocks forever' is decided as 'does not finish in 4-5 orders of magnitude above the normal cost'")
 	r.Assume("debug.SetMaxStack(16 MiB) in the children: unbounded recursion is reported as 'stack overflow' earlier than with the 1 GiB default; generated inputs nest at most ~3000 levels, far below either limit")
 	r.Assume("klauspost/compress, encoding/json, archive/tar, go-fuse, bbolt are part of the trusted base only in so far as a crash inside them with a /repo frame below is attributed to that /repo frame")
 }
@@ -272,7 +287,7 @@ func runSpan(r *vf.Run, s span) (suspects []span, crashes []crashed) {
 				return
 			}
 		case st.suspect:
-			suspects = append(suspects, span{st.openIdx, st.openIdx + 1, s.race})
+			suspects = append(suspects, span{st.openIdx, st.openIdx + 1, s.race, st.stage})
 			from = st.openIdx + 1
 		case st.guard:
 			r.Count("oom_deaths", 1)
@@ -283,7 +298,7 @@ func runSpan(r *vf.Run, s span) (suspects []span, crashes []crashed) {
 			sig, ok := sigFromOutput(out)
 			switch {
 			case ex.TimedOut:
-				suspects = append(suspects, span{st.openIdx, st.openIdx + 1, s.race})
+				suspects = append(suspects, span{st.openIdx, st.openIdx + 1, s.race, "child watchdog"})
 			case ok && sig.OOM:
 				r.Count("oom_deaths", 1)
 				r.Distinct("oom_sites", sig.Site)
@@ -316,6 +331,7 @@ type journalState struct {
 	lastEnd int
 	suspect bool
 	guard   bool
+	stage   string
 }
 
 func readJournal(path string) journalState {
@@ -343,6 +359,9 @@ func readJournal(path string) journalState {
 			st.openIdx, st.lastEnd = -1, idx
 		case "SUSPECT":
 			st.suspect = true
+			if i := strings.Index(sc.Text(), "stage="); i >= 0 {
+				st.stage = sc.Text()[i+6:]
+			}
 		case "MEMGUARD":
 			st.guard = true
 		case "START":
@@ -404,9 +423,9 @@ func batch(r *vf.Run) {
 	jw("START %d %d\n", from, to)
 	pool := newPool(r)
 	sh := &shared{dir: filepath.Join(r.Scratch, "shared")}
-	soft := time.Duration(envInt("C04_SOFT_S", 20)) * time.Second
+	soft := time.Duration(envInt("C04_SOFT_S", 12)) * time.Second
 	if r.RaceBuild {
-		soft = time.Duration(envInt("C04_SOFT_RACE_S", 90)) * time.Second
+		soft = time.Duration(envInt("C04_SOFT_RACE_S", 60)) * time.Second
 	}
 	var curIdx = -1
 	if r.RaceBuild {
@@ -451,7 +470,7 @@ func batch(r *vf.Run) {
 		_ = os.RemoveAll(c.dir)
 		jw("END %d\n", i)
 		ran++
-		if ran%20 == 0 {
+		if ran%5 == 0 {
 			r.FlushPartial()
 		}
 	}
@@ -528,6 +547,17 @@ func solo(r *vf.Run) {
 	if os.Getenv("C04_TIMING") != "" {
 		stageTiming = map[string]time.Duration{}
 	}
+	// The runtime's own SIGQUIT dump cannot show a goroutine that spins on another
+	// thread ("stack unavailable"); runtime.Stack stops the world first and can.
+	sq := make(chan os.Signal, 1)
+	signal.Notify(sq, syscall.SIGQUIT)
+	go func() {
+		<-sq
+		buf := make([]byte, 32<<20)
+		n := runtime.Stack(buf, true)
+		fmt.Printf("\nSIGQUIT: goroutine dump of the suspect run (stage=%v)\n\n%s\n", c.cur.Load(), buf[:n])
+		os.Exit(3)
+	}()
 	t0 := time.Now()
 	runCase(c)
 	account(r, c, time.Since(t0))
